@@ -20,8 +20,15 @@ import (
 var kinds = []string{`SubscribeEvent("a")`, `SubscribeEvent("b")`, "SubscribeMessages", "SubscribeToAll"}
 var evTypes = []string{"", "a", "b", "c"}
 
+// the second alphabet: type strings that an implementation might be tempted to treat specially
+var kindTypes = []string{"a", "b"}
+var oddKinds = []string{`SubscribeEvent("\x00")`, `SubscribeEvent("message")`, "SubscribeMessages", "SubscribeToAll"}
+var oddKindTypes = []string{"\x00", "message"}
+var oddEvTypes = []string{"", "\x00", "message", " "}
+
 type entry struct {
 	kind int // index into kinds
+	typ  string
 	live bool
 	got  []int
 	want []int
@@ -29,10 +36,8 @@ type entry struct {
 
 func (e *entry) matches(t string) bool {
 	switch e.kind {
-	case 0:
-		return t == "a"
-	case 1:
-		return t == "b"
+	case 0, 1:
+		return t == e.typ
 	case 2:
 		return t == ""
 	}
@@ -40,6 +45,7 @@ func (e *entry) matches(t string) bool {
 }
 
 type seqWorld struct {
+	Odd     bool
 	Ops     []string
 	Entries []*entry
 	Err     error
@@ -58,10 +64,22 @@ type opBody struct {
 	pending  string
 	before   bool // operations were all done before Connect: the body only delivers
 	events   []string
+	odd      bool // the second alphabet
+}
+
+func (b *opBody) alphabet() (ks, kts, ets []string) {
+	if b.odd {
+		return oddKinds, oddKindTypes, oddEvTypes
+	}
+	return kinds, kindTypes, evTypes
 }
 
 func (b *opBody) subscribe(k int) {
+	_, kts, _ := b.alphabet()
 	e := &entry{kind: k, live: true}
+	if k < 2 {
+		e.typ = kts[k]
+	}
 	b.w.Entries = append(b.w.Entries, e)
 	cb := func(ev sse.Event) {
 		if ev.Data == "" {
@@ -80,10 +98,8 @@ func (b *opBody) subscribe(k int) {
 	}
 	var rm sse.EventCallbackRemover
 	switch k {
-	case 0:
-		rm = b.conn.SubscribeEvent("a", cb)
-	case 1:
-		rm = b.conn.SubscribeEvent("b", cb)
+	case 0, 1:
+		rm = b.conn.SubscribeEvent(e.typ, cb)
 	case 2:
 		rm = b.conn.SubscribeMessages(cb)
 	case 3:
@@ -98,6 +114,7 @@ func (b *opBody) step() (ev string, done bool) {
 	if b.nops >= b.maxOps {
 		return "", true
 	}
+	kinds, _, evTypes := b.alphabet()
 	n := len(kinds) + len(evTypes) + len(b.removers) + 2
 	k := vrt.Choose(n, "operation")
 	b.nops++
@@ -166,12 +183,13 @@ func (t oneShot) RoundTrip(req *http.Request) (*http.Response, error) {
 		Header: http.Header{"Content-Type": {"text/event-stream"}}, Body: t.body, Request: req}, nil
 }
 
-func seqBody(maxOps int, before bool) func() {
+func seqBody(maxOps int, before bool, odd ...bool) func() {
 	return func() {
 		w := &seqWorld{}
 		vrt.SetUser(w)
 		ctx := vrt.NewCtx("req")
-		b := &opBody{w: w, maxOps: maxOps, before: before}
+		b := &opBody{w: w, maxOps: maxOps, before: before, odd: len(odd) > 0 && odd[0]}
+		w.Odd = b.odd
 		cl := sse.Client{HTTPClient: &http.Client{Transport: oneShot{b}}, Backoff: sse.Backoff{MaxRetries: -1}}
 		b.conn = cl.NewConnection(ch.NewRequest(ctx, http.NoBody))
 		if before {
@@ -221,7 +239,11 @@ func seqCheck(r *vrt.Result) string {
 	}
 	for i, e := range w.Entries {
 		if fmt.Sprint(e.got) != fmt.Sprint(e.want) {
-			return fmt.Sprintf("after [%s]: callback #%d (%s) received events %v, want %v", strings.Join(w.Ops, ", "), i, kinds[e.kind], e.got, e.want)
+			ks := kinds
+			if w.Odd {
+				ks = oddKinds
+			}
+			return fmt.Sprintf("after [%s]: callback #%d (%s) received events %v, want %v", strings.Join(w.Ops, ", "), i, ks[e.kind], e.got, e.want)
 		}
 	}
 	return ""
@@ -284,7 +306,7 @@ func (b *concBody) settle() {
 }
 
 func (c *cbState) matches(t string) bool {
-	e := entry{kind: c.kind}
+	e := entry{kind: c.kind, typ: "a"}
 	return e.matches(t)
 }
 
@@ -449,6 +471,9 @@ func Scenarios(tier string) []run.Scenario {
 		out = append(out, run.Scenario{Name: fmt.Sprintf("sequences-depth%d-before-connect-%v", depth, b), Body: seqBody(depth, b), Check: seqCheck, Sig: sig, Summary: seqSummary,
 			Opts: vrt.Options{PreemptBound: -1, FaultBound: -1, OrderBound: 0, Prune: false}})
 	}
+	// the same over type strings that invite special treatment: NUL, "message" (the type browsers default to), a blank
+	out = append(out, run.Scenario{Name: fmt.Sprintf("sequences-depth%d-odd-types", depth-1), Body: seqBody(depth-1, false, true), Check: seqCheck, Sig: sig, Summary: seqSummary,
+		Opts: vrt.Options{PreemptBound: -1, FaultBound: -1, OrderBound: 0, Prune: false}})
 	// the same with every map order in one dispatch, one level shallower
 	out = append(out, run.Scenario{Name: fmt.Sprintf("sequences-depth%d-one-order-deviation", depth-1), Body: seqBody(depth-1, false), Check: seqCheck, Sig: sig, Summary: seqSummary,
 		Opts: vrt.Options{PreemptBound: -1, FaultBound: -1, OrderBound: 1, Prune: false}})
@@ -470,7 +495,7 @@ func Scenarios(tier string) []run.Scenario {
 
 var Check = &run.Check{
 	ID: "C13", Level: "model_checking",
-	Rule: "Sequential: the explorer chooses EVERY sequence of <= 5 (thorough 6) operations from {SubscribeEvent(a), SubscribeEvent(b), SubscribeMessages, SubscribeToAll, call any remover returned so far (also repeatedly and stale), deliver an event of type '', a, b, c, deliver a chunk that only names a type}, performed on the Connect goroutine between two events (inside the response body's Read) or all before Connect; a list model of live subscriptions prescribes each callback's exact event sequence. Concurrent: Connect dispatching 2-3 events while threads subscribe, remove, remove twice, re-subscribe, call a stale remover, and call one remover from two threads at once, with fast and slow (yielding) callbacks; all interleavings of the instrumented RWMutex operations and all map orders (state-key pruning); online oracle: no invocation after the remover returned, exactly once for callbacks that were subscribed at hand-over and not yet being removed when the dispatch ended, per-callback stream order.",
+	Rule: "Sequential: the explorer chooses EVERY sequence of <= 5 (thorough 6) operations from {SubscribeEvent(a), SubscribeEvent(b), SubscribeMessages, SubscribeToAll, call any remover returned so far (also repeatedly and stale), deliver an event of type '', a, b, c, deliver a chunk that only names a type}, (and the same one level shallower over the types NUL, 'message', blank and empty) performed on the Connect goroutine between two events (inside the response body's Read) or all before Connect; a list model of live subscriptions prescribes each callback's exact event sequence. Concurrent: Connect dispatching 2-3 events while threads subscribe, remove, remove twice, re-subscribe, call a stale remover, and call one remover from two threads at once, with fast and slow (yielding) callbacks; all interleavings of the instrumented RWMutex operations and all map orders (state-key pruning); online oracle: no invocation after the remover returned, exactly once for callbacks that were subscribed at hand-over and not yet being removed when the dispatch ended, per-callback stream order.",
 	Assumptions: []string{
 		"data races on plain memory are outside the scheduler's view (DESIGN.md 2.1 and 8); the mutex discipline is explored at lock granularity",
 	},
